@@ -16,6 +16,10 @@ Byte strings travel as lower-case hex (two digits per byte), the empty string as
 | `get <i>` / `get_in_place <i>` | `ok <hex>` / `panic` |
 | `iter` `lend` `iter_from <j>` `lend_from <j>` `into_iter_from <j>` | `ok <hints [..]> <items [hex,..]>` / `panic`: the `len()` observed before every `next()` and the items |
 | `into_lender` | same, through `Lend::new` |
+| `into_iter` | same, through `IntoIterator for &RearCodedList` |
+| `extend [hex,..]` | `RearCodedListBuilder::extend` from a lender of `&str`: `ok` / `panic` (`k = 0`, non-empty list) |
+| `iter_proto <j> <k>` / `lend_proto <j> <k>` | `iter_from(j)` (`Lend::new` / `Lend::new_from(j)`), then `nth(k)`, `len()`, `count()`, and `last()` of a second one: `ok <hex or none> <len> <count> <hex or none>` |
+| `print_stats` | `ok` / `panic`: the real method panics (index 6 of the 5-entry unit table in `human`) exactly when `stats.redundancy < 0`; the runner tracks that statistic (`redDelta`) |
 | `index_of <hex>` | `ok none` / `ok <i>` / `panic` |
 | `contains <hex>` | `ok 0` / `ok 1` / `panic` |
 | `vbyte <value> <tail hex>` | `ok <code hex> <len> <decoded> <rest len>`: `encode_int(value)`, `encode_int_len(value)`, `decode_int(code ++ tail)`; `panic` where `encode_int_len` diverges (`value ≥ 2^63 + UPPER_BOUND_8`, never generated). Stateless. |
@@ -56,6 +60,50 @@ def fmtHexList (xs : List (List Nat)) : String :=
 structure RSt where
   b : Builder := Builder.new 1
   l : Option RCL := none
+  /-- `stats.redundancy` of the real builder (an `isize`): the only statistic that decides whether
+      `print_stats` returns -/
+  red : Int := 0
+
+/-- change of `stats.redundancy` caused by pushing `string` on `b`: at a block start other than the
+    first, `+ lcp - encode_int_len(last_str.len() - lcp)` -/
+def redDelta (b : Builder) (string : List Nat) : Int :=
+  if b.k = 0 then 0
+  else if b.len % b.k = 0 ∧ b.len ≠ 0 then
+    let lcp := (longestCommonPrefix b.lastStr string).1
+    match encodeIntLen (b.lastStr.length - lcp) with
+    | .ok n => (lcp : Int) - (n : Int)
+    | _ => 0
+  else 0
+
+/-- `push` every string, stopping at the first panic (the strings before it stay pushed) -/
+def extendGo (b : Builder) (red : Int) : List (List Nat) → Builder × Int × Bool
+  | [] => (b, red, true)
+  | s :: rest =>
+    match b.push s with
+    | .ok b' => extendGo b' (red + redDelta b s) rest
+    | _ => (b, red, false)
+
+/-- `[61,-,6262]` -/
+def parseHexList (s : String) : Option (List (List Nat)) :=
+  if s.length < 2 then none
+  else
+    let inner := (s.drop 1).dropEnd 1 |>.toString
+    if inner.isEmpty then some [] else (inner.splitOn ",").mapM parseHex
+
+def fmtOptHex : Option (List Nat) → String
+  | none => "none"
+  | some b => fmtHex b
+
+/-- `nth(k)`, then `len()`, `count()` of what is left; `last()` of the whole -/
+def fmtProto (k : Nat) (p : List Nat × List (List Nat)) : String :=
+  let vs := p.2
+  let left := vs.length - min vs.length (k + 1)
+  s!"{fmtOptHex vs[k]?} {left} {left} {fmtOptHex vs.getLast?}"
+
+/-- `human(key, x)` of `print_stats` indexes `UOM` (5 entries) after dividing by 1000 while
+    `y > 1000.0`: it panics from `x ≥ 10^15 + …` on; the only argument that can be that large is
+    `stats.redundancy as usize` when the redundancy is negative (≥ 2^63: six divisions) -/
+def printStatsPanics (red : Int) : Bool := red < 0
 
 def obs {α} (r : RSt) (o : Out α) (f : α → String) : RSt × String :=
   match o with
@@ -75,13 +123,19 @@ def step (r : RSt) (toks : List String) : RSt × String :=
   match toks with
   | ["case", _] => ({}, "case")
   | ["new", k] => match parseNat k with
-    | some k => ({ b := Builder.new k, l := none }, "ok") | none => bad
+    | some k => ({ b := Builder.new k, l := none, red := 0 }, "ok") | none => bad
   | ["push", h] => match parseHex h with
     | some s => match r.b.push s with
-      | .ok b => ({ r with b := b }, "ok")
+      | .ok b => ({ r with b := b, red := r.red + redDelta r.b s }, "ok")
       | .panic => (r, "panic")
       | .oob => (r, "oob")
     | none => bad
+  | ["extend", hs] => match parseHexList hs with
+    | some ss =>
+      let (b, red, ok) := extendGo r.b r.red ss
+      ({ r with b := b, red := red }, if ok then "ok" else "panic")
+    | none => bad
+  | ["print_stats"] => (r, if printStatsPanics r.red then "panic" else "ok")
   | ["build"] => ({ r with l := some r.b.build }, "ok")
   | ["vbyte", v, h] => match parseNat v, parseHex h with
     | some v, some tail =>
@@ -106,6 +160,14 @@ def step (r : RSt) (toks : List String) : RSt × String :=
       | "get_in_place", [i] => match parseNat i with
         | some i => obs r (getInPlace l i) (fun a => fmtHex a.toList) | none => bad
       | "iter", [] => obs r (iterFrom l 0) fmtDrain
+      | "into_iter", [] => obs r (iterFrom l 0) fmtDrain
+      | "iter_proto", [j, k] => match parseNat j, parseNat k with
+        | some j, some k => obs r (iterFrom l j) (fmtProto k) | _, _ => bad
+      | "lend_proto", [j, k] => match parseNat j, parseNat k with
+        | some j, some k =>
+          if j = 0 then obs r (drain l (l.len + 1) (Lend.new l)) (fmtProto k)
+          else obs r (iterFrom l j) (fmtProto k)
+        | _, _ => bad
       | "lend", [] => obs r (iterFrom l 0) fmtDrain
       | "iter_from", [j] => match parseNat j with
         | some j => obs r (iterFrom l j) fmtDrain | none => bad
